@@ -141,11 +141,11 @@ class FGen(seqgen.Gen):
         return evs
 
 
-def random_sequence(rng, system=None, n_blocks=None, **kw):
+def random_sequence(rng, system=None, n_blocks=None, use_block_cache=True, **kw):
     """returns (seq, number of blocks stored, writer system)"""
     import pypulseq as pp
     system = system or rand_system(rng)
-    seq = pp.Sequence(system)
+    seq = pp.Sequence(system, use_block_cache=use_block_cache)
     g = FGen(rng, system, **kw)
     n = n_blocks or rng.randint(1, 12)
     stored = 0
